@@ -779,10 +779,25 @@ pub fn plan_c06(thorough: bool) -> Plan {
         }
         cases.extend(cs);
     }
+    // ten keys in one depth-1 page, all present: every witnessed batch of ≤3 reads / writes /
+    // deletes (a written terminal followed by a read-only one followed by a third, at every
+    // combination of depths)
+    {
+        let mut cfg = Cfg::default();
+        cfg.buckets = 256;
+        let acts3: Vec<Value> = vec![json!(["r"]), json!(["w", 1]), json!(["d"])];
+        let mut cs = enum_commit_histories(1, 10, 3, &acts3, &|ops: Vec<Value>, b: usize| case("empty", vec!["DEEP"], &cfg, "root", ops, b, false));
+        for cse in cs.iter_mut() {
+            let ops = cse["ops"].as_array().unwrap().clone();
+            let batch = ops[0]["c"].clone();
+            cse["ops"] = Value::Array(vec![c((0..10).map(|i| w(i, 1)).collect()), json!({"cw": batch})]);
+        }
+        cases.extend(cs);
+    }
     sort_by_bound(&mut cases);
     let mut p = Plan::new(
         cases,
-        "histx: for prior states {3 colliding keys, leaf seed, 20-key merkle cluster, 1500 random keys} × commit workers {1,2,3} × warm-up {off,on}: every sorted batch with ≤B non-trivial per-key actions {read, write, read-then-write, delete, read-then-delete} over a 6–7 key universe of present and absent keys (several keys on one terminal, keys in different root-child ranges); plus, with 3 and 5 (thorough 6, 7) workers, every batch of ≤3 actions over 10 keys placed on both sides of the workers' range boundaries in a two-leaf trie (one terminal spans several workers' ranges); the session runs with witnessing on; oracle: every witnessed path verifies against the previous root (= reference root), every witnessed read attests exactly the value hash the session observed and is confirmed by its path, every written key is covered with the right value hash and in scope of its path, and proof::verify_update over the witnessed writes = FinishedSession::root = reference root of the updated set.",
+        "histx: for prior states {3 colliding keys, leaf seed, 20-key merkle cluster, 1500 random keys} × commit workers {1,2,3} × warm-up {off,on}: every sorted batch with ≤B non-trivial per-key actions {read, write, read-then-write, delete, read-then-delete} over a 6–7 key universe of present and absent keys (several keys on one terminal, keys in different root-child ranges); plus, with 3 and 5 (thorough 6, 7) workers, every batch of ≤3 actions over 10 keys placed on both sides of the workers' range boundaries in a two-leaf trie (one terminal spans several workers' ranges); plus every batch of ≤3 {read, write, delete} over ten present keys that share one depth-1 page at mixed depths (DEEP); the session runs with witnessing on; oracle: every witnessed path verifies against the previous root (= reference root), every witnessed read attests exactly the value hash the session observed and is confirmed by its path, every written key is covered with the right value hash and in scope of its path, and proof::verify_update over the witnessed writes = FinishedSession::root = reference root of the updated set.",
     );
     p.budget_s = if thorough { 1700 } else { 55 };
     p
